@@ -26,10 +26,10 @@ Qed.
 (* ---------- assignment *)
 Lemma Sx_asg : forall cpp o l ra ta ka rb tb kb,
   Sx cpp ra ta ka -> Sx cpp rb tb kb ->
-  ka <= 13 -> kb <= 14 -> ender2 ra -> rb <> [] -> ra <> [] ->
+  ka <= 13 -> kb <= 14 -> ender2 ra -> rb <> [] -> ra <> [] -> dbal ra ->
   Sx cpp (ra ++ (l, TOp (OAsg o)) :: rb) (B (l, TOp (OAsg o)) ta tb) 14.
 Proof.
-  intros cpp o l ra ta ka rb tb kb IHa IHb Hka Hkb Hend Hrb Hra f d s rest out n Hrk Hd Hn Hlen Hop Hps Hj Hnd Hq Hq14 Hq1 Hz Hc.
+  intros cpp o l ra ta ka rb tb kb IHa IHb Hka Hkb Hend Hrb Hra Hdb f d s rest out n Hrk Hd Hn Hlen Hop Hps Hj Hnd Hq Hq14 Hq1 Hz Hc.
   set (op := (l, TOp (OAsg o))) in *.
   rewrite app_length in Hn. cbn [length] in Hn.
   rewrite <- app_assoc in *. cbn [app] in *.
@@ -66,7 +66,8 @@ Proof.
         rewrite <- rev_mid. apply Hq. lia.
       - intros E Hh. unfold s1, sa, mkafter, set_asgn. cbn [bef asgn stk depth].
         rewrite <- rev_mid. apply Hz; [reflexivity|].
-        rewrite hasq_app. cbn [hasq existsb] in *. fold (hasq rb). rewrite Hh, !orb_true_r. reflexivity.
+        unfold topq in *. rewrite (Hdb 0 (op :: rb)). unfold op at 1. cbn [topq_d snd]. fold op.
+        rewrite Hh. apply orb_true_r.
       - unfold mkafter. apply cont_quiet; [exact Hkb|]. intros r Hr.
         unfold s1, sa, mkafter, set_asgn. cbn [bef asgn stk depth]. rewrite <- rev_mid.
         destruct (Nat.eq_dec r 14) as [->|Hne]; [apply Hq14; reflexivity|apply Hq; lia]. }
